@@ -573,6 +573,12 @@ pub fn parse_datetime_yymmddhhmm(input: &str) -> Result<NaiveDateTime, ParseErro
         });
     }
 
+    if !input.is_ascii() {
+        return Err(ParseError::InvalidFormat {
+            message: "DateTime must be in YYMMDDHHMM format (10 digits)".to_string(),
+        });
+    }
+
     let date = parse_date_yymmdd(&input[0..6])?;
     let time = parse_time_hhmm(&input[6..10])?;
 
@@ -641,6 +647,12 @@ pub fn validate_iban(iban: &str) -> Result<(), ParseError> {
                 "IBAN must be between 15 and 34 characters, found {}",
                 iban.len()
             ),
+        });
+    }
+
+    if !iban.is_ascii() {
+        return Err(ParseError::InvalidFormat {
+            message: "IBAN must contain only ASCII letters and digits".to_string(),
         });
     }
 
